@@ -96,6 +96,20 @@ static void run_case(const json & c, int mode) {
         typename covfie::field<CI>::view_t v(f);
         auto r = v.at(x);
         for (std::size_t i = 0; i < N; ++i) expect_eq("clamp/identity/" + tag, (long double)r[i], (long double)want[i], ctx);
+        {   // the variadic form of the lookup, at(x0, x1, ...): the arguments must arrive unchanged (64-bit values included)
+            auto rv = [&]() { if constexpr (N == 1) return v.at(x[0]); else if constexpr (N == 2) return v.at(x[0], x[1]); else if constexpr (N == 3) return v.at(x[0], x[1], x[2]); else return v.at(x[0], x[1], x[2], x[3]); }();
+            for (std::size_t i = 0; i < N; ++i) expect_eq("clamp/identity-variadic-lookup/" + tag, (long double)rv[i], (long double)want[i], ctx);
+        }
+        {   // a box whose bounds are the same on every axis, built with the broadcasting constructor array(value)
+            bool uniform = true;
+            for (std::size_t i = 1; i < N; ++i) if (!(lo[i] == lo[0]) || !(hi[i] == hi[0])) uniform = false;
+            if (uniform) {
+                covfie::array::array<T, N> blo(lo[0]), bhi(hi[0]);
+                covfie::field<CI> fb(covfie::make_parameter_pack(typename CI::configuration_t{blo, bhi}, std::monostate{}));
+                auto rb = typename covfie::field<CI>::view_t(fb).at(x);
+                for (std::size_t i = 0; i < N; ++i) expect_eq("clamp/identity-broadcast-box/" + tag, (long double)rb[i], (long double)want[i], ctx);
+            }
+        }
         if ((g_cases % 3) == 0) {     // the same box reached through dump + load, and through assignment over a different box
             std::stringstream ss; f.dump(ss);
             covfie::field<CI> fl(ss);
@@ -136,6 +150,23 @@ static void run_case(const json & c, int mode) {
         auto r = v.at(x);
         bool inside = c["inside"].get<bool>();
         expect_eq("backup/probe-queries/" + tag, g_probe.queries, inside ? 1L : 0L, ctx);
+        {   // variadic form of the lookup and a broadcast-built uniform box, over backup<identity>
+            using BI0 = cb::backup<cb::identity<V>>;
+            typename BI0::configuration_t bc0; bc0.min = lo; bc0.max = hi;
+            for (std::size_t i = 0; i < N; ++i) bc0.default_value[i] = static_cast<T>(i + 1 == N ? 5 : 6);
+            covfie::field<BI0> f0(covfie::make_parameter_pack(typename BI0::configuration_t(bc0), std::monostate{}));
+            typename covfie::field<BI0>::view_t v0(f0);
+            auto rv = [&]() { if constexpr (N == 1) return v0.at(x[0]); else if constexpr (N == 2) return v0.at(x[0], x[1]); else if constexpr (N == 3) return v0.at(x[0], x[1], x[2]); else return v0.at(x[0], x[1], x[2], x[3]); }();
+            for (std::size_t i = 0; i < N; ++i) expect_eq("backup/variadic-lookup/" + tag, (long double)rv[i], inside ? (long double)x[i] : (long double)bc0.default_value[i], ctx);
+            bool uniform = true;
+            for (std::size_t i = 1; i < N; ++i) if (!(lo[i] == lo[0]) || !(hi[i] == hi[0])) uniform = false;
+            if (uniform) {
+                typename BI0::configuration_t bb; bb.min = covfie::array::array<T, N>(lo[0]); bb.max = covfie::array::array<T, N>(hi[0]); bb.default_value = covfie::array::array<T, N>(static_cast<T>(9));
+                covfie::field<BI0> fb(covfie::make_parameter_pack(typename BI0::configuration_t(bb), std::monostate{}));
+                auto rb = typename covfie::field<BI0>::view_t(fb).at(x);
+                for (std::size_t i = 0; i < N; ++i) expect_eq("backup/broadcast-box/" + tag, (long double)rb[i], inside ? (long double)x[i] : (long double)9, ctx);
+            }
+        }
         if ((g_cases % 3) == 0) {     // the same configuration reached through dump + load and through assignment (backup over identity)
             using BI = cb::backup<cb::identity<V>>;
             typename BI::configuration_t bc; bc.min = lo; bc.max = hi;
